@@ -274,6 +274,12 @@ def run_program(asm, acc, lines, checks, compress, seedinfo):
     if not lay.obs.ok:
         acc['ctr']['program_refused'] += 1
         acc['notes'].append('refused: %r' % (lay.obs.exc,)) if len(acc['notes']) < 3 else None
+        txt = (lay.obs.exc.get('contents') or '').strip()
+        if lay.obs.exc.get('is_asm_error') and ('%hi' in txt or '%lo' in txt or txt.lower().startswith('li ')) and not any(n in txt for n in ('LA', 'LB', 'LP', 'LSTART', 'LMID', '%position', '%offset', 'FARFN')):
+            # "for every 32-bit value v, %hi(v) fits the upper-immediate field and %lo(v) the signed 12-bit field": every value of these
+            # programs that is written as a literal or through constants is a 32-bit value (in a signed or an unsigned spelling; label sums may
+            # pass 2^32 and are left out here), so a refusal that names such a consumer of %hi / %lo says one of the two did not fit
+            core.add_viol(acc, 'the line `%s` is refused (%s) although its operand is a 32-bit value (compress=%s)' % (txt[:120], lay.obs.exc['msg'][:160], compress), case, {})
         return
     if lay.chunks is None or not lay.order_ok:
         core.add_viol(acc, 'layout not in source order: ' + lay.why, case, {})
@@ -331,6 +337,14 @@ def run_program(asm, acc, lines, checks, compress, seedinfo):
 
 
 def prog_shard(asm, acc, sh, deadline):
+    # history: earlier builds of this interpreter (one per mode) in which the names the programs below use for their *labels* were
+    # constants - what a name was in another program says nothing about what it is in this one
+    for compress in (True, False):
+        try:
+            asm.assemble('LA = 0\nLB = 4\nLP = 0x800\nLSTART = 0\nLMID = 0\nlui x8, %hi(LP)\naddi x8, x8, %lo(LP)\naddi x9, x9, %lo(LA)\nlw x10, %lo(LB)(x8)\n', compress=compress)
+            acc['ctr']['history_builds_with_the_label_names_as_constants'] += 1
+        except Exception:       # noqa - whatever the tree makes of the history program: it is history, not the subject
+            acc['ctr']['history_builds_refused'] += 1
     for p in range(sh['count']):
         rng = random.Random('c07-%d-%d-%d' % (sh['seed'], sh['idx'], p))
         lines, checks = build_program(rng, sh['nvals'])
